@@ -82,8 +82,81 @@ class RecordingEnviron:
         return getattr(self._real, name)
 
 
+CLOCK_READS = set()
+FILE_OPENS = set()
+
+
+def _repo_frame(depth=2):
+    f = sys._getframe(depth)
+    while f is not None and not f.f_code.co_filename.startswith('/'):
+        f = f.f_back
+    if f is None:
+        return None
+    name = f.f_code.co_filename
+    return name if ('/pykdebugparser/' in name and '/verif/' not in name and '/site-packages/' not in name) else None
+
+
+def watch_clock_and_files(clock_shift):
+    """Record wall-clock reads and file opens made DIRECTLY by code of the repository.  clock_shift != 0 makes those
+    clock reads (and only those) answer with a shifted time: a rendering that depends on 'now' then differs between
+    the shifted and the unshifted run.  The repository's own data files and the dump it is given are not host state."""
+    import time
+    import datetime as _dt
+    real_time, real_localtime = time.time, time.localtime
+
+    def fake_time():
+        if _repo_frame() is not None:
+            CLOCK_READS.add('time.time')
+            return real_time() + clock_shift
+        return real_time()
+
+    def fake_localtime(secs=None):
+        if secs is None and _repo_frame() is not None:
+            CLOCK_READS.add('time.localtime')
+            return real_localtime(real_time() + clock_shift)
+        return real_localtime(secs) if secs is not None else real_localtime()
+    time.time, time.localtime = fake_time, fake_localtime
+
+    class WatchedDatetime(_dt.datetime):
+        @classmethod
+        def now(cls, tz=None):
+            if _repo_frame() is not None:
+                CLOCK_READS.add('datetime.now')
+                return _dt.datetime.fromtimestamp(real_time() + clock_shift, tz)
+            return _dt.datetime.fromtimestamp(real_time(), tz)
+
+        @classmethod
+        def utcnow(cls):
+            if _repo_frame() is not None:
+                CLOCK_READS.add('datetime.utcnow')
+            return _dt.datetime.fromtimestamp(real_time() + (clock_shift if _repo_frame() else 0), _dt.timezone.utc).replace(tzinfo=None)
+
+        @classmethod
+        def today(cls):
+            return cls.now()
+    _dt.datetime = WatchedDatetime
+
+    def audit(event, args):
+        if event == 'open' and args and isinstance(args[0], str):
+            path = args[0]
+            f = sys._getframe(1)
+            for _ in range(6):          # open() <- (io / pathlib helpers) <- caller
+                if f is None:
+                    break
+                name = f.f_code.co_filename
+                if '/pykdebugparser/' in name and '/verif/' not in name and '/site-packages/' not in name:
+                    if '/pykdebugparser/' not in path and not os.path.basename(path).startswith('verif-'):
+                        FILE_OPENS.add(path)
+                    break
+                if '/verif/' in name:
+                    break
+                f = f.f_back
+    sys.addaudithook(audit)
+
+
 def install(host):
     os.environ = RecordingEnviron(os.environ)        # os.getenv() looks the name up in the os module: recorded too
+    watch_clock_and_files(float(os.environ._real.get('VERIF_CLOCK_SHIFT', '0')))
     if host == 'real':
         return
     # import everything third-party / stdlib that looks at the platform before the platform is disguised
@@ -262,4 +335,6 @@ if __name__ == '__main__':
     install(host)
     res = workload(seed)
     res['_env_reads'] = sorted(ENV_READS)
+    res['_clock_reads'] = sorted(CLOCK_READS)
+    res['_file_opens'] = sorted(FILE_OPENS)
     json.dump(res, sys.stdout)
